@@ -230,6 +230,15 @@ def run(ctx: core.Ctx):
             check_export(ctx, fl, e_, n, 9, "each", 9)
             check_export.pool = saved or {"n": 0}
             ctx.case(("range-edited", n, lo_), nontrivial=True)
+    # a disabled input variable is still an input variable: it is swept like the others (its column holds the grid, the rows are k^n)
+    for n in (2, 3):
+        e_ = make_engine(fl, n, RANGES)
+        e_.input_variables[-1].enabled = False
+        check_export(ctx, fl, e_, n, 4 ** n, "all", 4)
+        check_export(ctx, fl, e_, n, 4, "each", 4)
+        e_.input_variables[0].enabled = False
+        check_export(ctx, fl, e_, n, 3 ** n, "all", 3)
+        ctx.case(("disabled-input", n), nontrivial=True)
     # switches, separators, decimals
     for dec in range(1, 10):
         for sep in (" ", ",", ";", "\t"):
